@@ -253,7 +253,8 @@ def _guarded(args):
         return ('ok', fn(task))
     except BaseException as e:          # incl. a stray watchdog exception
         import traceback
-        tsh.Watch.active = False
+        import tsh as _t
+        _t.Watch.active = False
         return ('err', '%s: %s\n%s' % (type(e).__name__, e, traceback.format_exc()[-1500:]))
 
 
